@@ -191,6 +191,8 @@ class MiniEval:
                 raise Undetermined(x.why)
         try:
             if isinstance(op, ast.Add):
+                if isinstance(a, (list, tuple)) and isinstance(b, (list, tuple)) and type(a) is not type(b):
+                    return list(a) + list(b)
                 return a + b
             if isinstance(op, ast.Sub):
                 return a - b
@@ -222,7 +224,16 @@ class MiniEval:
                     return sub.expr(r[2], {})
             raise Undetermined('name %s' % e.id)
         if isinstance(e, (ast.List, ast.Tuple)):
-            return [self.expr(x, env) for x in e.elts]
+            out = []
+            for x in e.elts:
+                if isinstance(x, ast.Starred):
+                    seq = self.expr(x.value, env)
+                    if not isinstance(seq, (list, tuple)):
+                        raise Undetermined('starred element %s' % ast.unparse(x)[:40])
+                    out.extend(seq)
+                else:
+                    out.append(self.expr(x, env))
+            return tuple(out) if isinstance(e, ast.Tuple) else out
         if isinstance(e, ast.Dict) and all(k is not None for k in e.keys):
             try:
                 return {self.expr(k, env): self.expr(v, env) for k, v in zip(e.keys, e.values)}
@@ -455,6 +466,8 @@ class MiniEval:
                 except Exception as ex:
                     raise Undetermined('list.%s failed: %s' % (f.attr, ex))
             if isinstance(base, str) and f.attr in _STR_METHODS:
+                if f.attr in ('startswith', 'endswith') and args and isinstance(args[0], list):
+                    args = [tuple(args[0])] + list(args[1:])
                 try:
                     return getattr(base, f.attr)(*args, **kwargs)
                 except Exception as ex:
@@ -778,7 +791,7 @@ REL_WORDS = {
 # SpecialDayRegex accepts on the pinned tree are listed)
 SPECIAL_DAYS = {
     'english': {'today': 0, 'tomorrow': 1, 'yesterday': -1, 'the day after tomorrow': 2, 'the day before yesterday': -2,
-                'day after tomorrow': 2, 'day before yesterday': -2},
+                'day after tomorrow': 2, 'day before yesterday': -2, 'tmr': 1, 'day after tmr': 2, 'the day after tmr': 2},
     'spanish': {'hoy': 0, 'mañana': 1, 'ayer': -1, 'pasado mañana': 2, 'anteayer': -2},
     'french': {"aujourd'hui": 0, 'demain': 1, 'hier': -1, 'après-demain': 2, 'après demain': 2, 'avant-hier': -2, 'avant hier': -2},
     'portuguese': {'hoje': 0, 'amanhã': 1, 'amanha': 1, 'ontem': -1, 'depois de amanhã': 2, 'anteontem': -2},
